@@ -98,6 +98,7 @@ static const item *PFX;
 static int         pfx_pos;
 static long        clock_calls;
 int                vs_atomic_points;
+int                vs_unlock_points;
 int                vs_io_points;
 int                vs_io_maxclamp = 8;
 int                vs_io_eagain;
@@ -351,7 +352,20 @@ __wrap_pthread_mutex_unlock(pthread_mutex_t *m)
 	int *o = owner_of(m);
 	if (*o == self->id)
 		*o = -1;
-	return __real_pthread_mutex_unlock(m);
+	int rv = __real_pthread_mutex_unlock(m);
+	// optional: a scheduling point right after an unlock that enables
+	// another thread (one blocked on, or woken towards, this mutex).  For
+	// race-free code this adds nothing; it exposes unsynchronised reads
+	// made after handing work to another thread.
+	if (vs_unlock_points && window) {
+		for (int i = 0; i < NT; i++)
+			if (&T[i] != self && T[i].state == ST_MUTEX &&
+			    T[i].obj == m) {
+				yield_to_sched();
+				break;
+			}
+	}
+	return rv;
 }
 
 static int
